@@ -178,7 +178,7 @@ func TestVerifC06Flow(t *testing.T) {
 	defer viol.Close()
 	n := 200
 	if VThorough() {
-		n = 1500
+		n = 5000
 	}
 	n = VEnvInt("C06_FLOWS", n)
 	for i := 0; i < n; i++ {
